@@ -2154,6 +2154,9 @@ func (ctx Ctx) imports(d []ast.Spec) []coq.Decl {
 		}
 		importPath := stringLitValue(s.Path)
 		if !builtinImports[importPath] {
+			if !coq.ValidImportPath(importPath) {
+				ctx.unsupported(s, "import path %s has a component that is not a Coq identifier", importPath)
+			}
 			// TODO: this uses the syntax of the Go import to determine the Coq
 			// import, but Go packages can contain a different name than their
 			// path. We can get this information by using the *types.Package
